@@ -10,6 +10,7 @@
 #include <unordered_set>
 
 using namespace vf;
+namespace vf { void dbgFault(const Case &cs, long k); }
 
 extern "C" const char *__asan_default_options() { return "detect_leaks=0:allocator_may_return_null=1:handle_abort=1:abort_on_error=0:symbolize=1"; }
 extern "C" const char *__ubsan_default_options() { return "print_stacktrace=1"; }
@@ -83,6 +84,14 @@ int main(int argc, char **argv) {
     yaep_verif.track = 1;
     Outcome o = runParse(*b, cs.inputs[atoi(argv[3])], cf);
     printf("%s\nhooks: reuse=%d copy=%d reuse_of_copied=%d skipped_origin=%d\n", o.str().c_str(), o.hook.n_reuse, o.hook.n_copy, o.hook.n_reuse_of_copied, o.hook.n_skipped_origin);
+    return 0;
+  }
+  if (cmd == "dbgfault") { // pbt dbgfault FILE k : run a C17 scenario in-process with allocation request k of the window failing
+    std::ifstream f(argv[2]);
+    std::stringstream ss; ss << f.rdbuf();
+    Case cs;
+    if (!parseCase(ss.str(), cs)) return 2;
+    dbgFault(cs, atol(argv[3]));
     return 0;
   }
   if (cmd == "rules") {
